@@ -108,6 +108,7 @@ def adoption(ctx, context, services_before=0, services_after=0, churn=False, fix
             kwargs = {k: ctx.num("%s_%s" % (pid, k), "int") for k in kws}
             plan.append((pid, f, args, kwargs))
     cycles = 1 + ctx.choice("extra_cycles", 3, fixed=fixed_cycles)
+    builtin_arg = ctx.num("builtin_arg", "int")
     svc_log = []
     made = []
 
@@ -133,7 +134,13 @@ def adoption(ctx, context, services_before=0, services_after=0, churn=False, fix
                 if empty:
                     def __len__(self):
                         return 0
-        if sid.startswith("after") and redecorated:
+        if sid.startswith("before") and redecorated:
+            # a derived service class with its own __init__ that does not chain to the base class
+            class Preset(Svc):
+                def __init__(self):
+                    self.preset = True
+            s = Preset()
+        elif sid.startswith("after") and redecorated:
             # a subclass decorated again for another flavour runs under ITS flavour
             other = FLAV[(FLAV.index(flavour) + 1) % 3]
             if other == "threading":
@@ -153,7 +160,14 @@ def adoption(ctx, context, services_before=0, services_after=0, churn=False, fix
         made.append((sid, flavour, s))
         return s
 
+    collected = []
+
     def submit_all():
+        # a payload need not be a python function: a builtin bound method (no __module__, no __qualname__ of its own)
+        try:
+            adopt_results.append(("builtin", "returned", runner.adopt(collected.append, builtin_arg, flavour=rt.FLAVOURS["threading"])))
+        except BaseException as e:  # noqa: B036
+            adopt_results.append(("builtin", "raised", e))
         for pid, f, args, kwargs in plan:
             try:
                 r = runner.adopt(_payload(f, pid, log), *args, flavour=rt.FLAVOURS[f], **kwargs)
@@ -210,13 +224,14 @@ def adoption(ctx, context, services_before=0, services_after=0, churn=False, fix
             for i in range(services_after or 1):
                 make_service("replacement%d" % i, FLAV[(i + 2) % 3])
             expected_services += services_after or 1
-        _wait(lambda: len(log) >= len(plan) and len(svc_log) >= expected_services)
+        _wait(lambda: len(log) >= len(plan) and len(svc_log) >= expected_services and len(collected) >= 1)
         time.sleep(0.02 * cycles + 0.05)  # further polling cycles: nothing may start twice
         alive = w.thread.is_alive()
         ctx.require(alive, "starting payloads and services does not end the runtime")
         # what has started BEFORE the harness stops the runtime (a payload that only starts because the
         # shutdown wakes its loop was not started by adopt)
         frozen = (list(log), list(svc_log))
+        collected_frozen = list(collected)
     finally:
         w.cleanup()
     log, svc_log = frozen  # payload closures keep appending to the original lists; judge the frozen copies
@@ -240,8 +255,10 @@ def adoption(ctx, context, services_before=0, services_after=0, churn=False, fix
             ctx.require(c["trio_task"], "trio payload runs as a trio task")
         else:
             ctx.require(not c["asyncio_task"] and not c["trio_task"], "thread payload runs outside both event loops")
-    ctx.require(all(kind == "returned" and r is None for _, kind, r in adopt_results) and len(adopt_results) == len(plan),
+    ctx.require(all(kind == "returned" and r is None for _, kind, r in adopt_results) and len(adopt_results) == len(plan) + 1,
                 "adopt returns None and does not raise")
+    ctx.require(len(collected_frozen) == 1 and same(collected_frozen[0], builtin_arg),
+                "a builtin bound method adopted as a thread payload runs exactly once with its argument")
     names = sorted(s for s, _ in svc_log)
     want = ["before%d" % i for i in range(services_before)] + ["after%d" % i for i in range(services_after)]
     if churn:
